@@ -33,6 +33,7 @@ PROP = {
         ("TestVFC09History", (400, 1500), {"steps": 40}),
         ("TestVFC09Concurrent", (120, 500)),
         ("TestVFC09ResetVsFlush", (400, 3000)),
+        ("TestVFC09ResetAcrossHourStep", (300, 2000)),
     ],
     "plain": ["TestVFC09Scenarios"],
     "shards": (4, 16),
